@@ -124,6 +124,9 @@ func (x *Exec) doCall(res ssa.Value, call *ssa.CallCommon, p token.Pos) {
 				names = append(names, sig.Params().At(i).Name())
 				tys = append(tys, sig.Params().At(i).Type())
 			}
+			if len(c.Params) == len(names) {
+				names = c.Params // the contract's own names (interface methods often leave parameters unnamed)
+			}
 			setRes(x.applyContract(c, key, append([]Val{recv}, args...), names, tys, sig.Results(), p))
 			return
 		}
